@@ -18,7 +18,7 @@ func init() {
 		Title: "Results and checksums are a deterministic function of schema and input",
 		Explanation: "Determinism fails only through a hidden input; the hidden inputs of this code base are enumerable. " +
 			"R15a/b history-dependent identifiers are keys only: every value derived (forward data flow through conversions, formatting, concatenation, local and captured variables) from a load of Node.ID or of the random declaration hash ends in a map key, a cache-key argument or a comparison — never in a return value, a stored field, an error text or an emitted value. " +
-			"R15c clock, randomness and process identity (time.Now, math/rand, crypto/rand, os.Getpid/Hostname/Getenv, uuid.New*) are called on the run path only by the function registered as the documented now custom function; random UUIDs only by the load-time hashing function. " +
+			"R15c clock, randomness and process identity (time.Now, math/rand, crypto/rand, os.Getpid/Hostname/Getenv, uuid.New*) are called on the run path only by the function registered as the documented now custom function; random UUIDs only by the load-time hashing function (or a helper all of whose enumerable callers are that function). " +
 			"R15d every range over a map in run-set or load-set code has an order-insensitive body: only map updates/deletes, VM global set/delete, pure calls, or appends to a list that is sorted in the same function; an early return inside such a loop is allowed only at load time with a non-nil error. " +
 			"R15e checksum provenance: nothing reachable from RawRecord.Checksum reads Node.ID or calls a source of R15c. " +
 			"R15f process history: a node taken from the pool is blank (reset stores every field; = C12 R12b/R12d), so results do not depend on what earlier transforms left in pooled nodes. R15g the same for pooled JavaScript VMs: globals defined for one call are wiped (deferred, before Put) on every path (= C20 R20a).",
@@ -188,6 +188,34 @@ func runC15(c *core.Ctx) {
 			}
 		}
 	}
+	// hasherOnly: f is the hashing function, or a helper all of whose callers are (the random id drawn on a table miss
+	// may come from `newHash()` instead of an inline uuid.New()). The callers must be enumerable: unexported, never
+	// used as a value, only plain static calls.
+	hasherOnlyMemo := map[*ssa.Function]bool{}
+	var hasherOnly func(f *ssa.Function, d int) bool
+	hasherOnly = func(f *ssa.Function, d int) bool {
+		if hashers[f] {
+			return true
+		}
+		if v, done := hasherOnlyMemo[f]; done {
+			return v
+		}
+		hasherOnlyMemo[f] = false // cycles: no
+		if d > 3 {
+			return false
+		}
+		sites, closed := f2CallSites(c, f)
+		if !closed || len(sites) == 0 {
+			return false
+		}
+		for _, s := range sites {
+			if _, isCall := s.(*ssa.Call); !isCall || !hasherOnly(s.Parent(), d+1) {
+				return false
+			}
+		}
+		hasherOnlyMemo[f] = true
+		return true
+	}
 	nCalls := 0
 	for _, f := range c.RepoFunctions() {
 		if core.IsCLIOrSample(core.FuncPkg(f)) {
@@ -207,7 +235,7 @@ func runC15(c *core.Ctx) {
 			switch {
 			case nowFns[f] && strings.HasPrefix(name, "time."):
 				c.OK("R15c", key, core.InstrPos(ci), "the documented now custom function (excluded by the property)")
-			case hashers[f] && strings.HasPrefix(name, "uuid.") && !inRun:
+			case hasherOnly(f, 0) && strings.HasPrefix(name, "uuid.") && !inRun:
 				c.OK("R15c", key, core.InstrPos(ci), "load-time declaration hash (used as a cache key only, see R15b)")
 			default:
 				c.Bad("R15c", key, core.InstrPos(ci), "a source of non-determinism ("+name+") is called on the schema-load/transform path outside the documented now function and the load-time hash")
